@@ -35,7 +35,7 @@ NOT_DECIDED = ["what zipfile / tarfile / lzma do internally", "symlink semantics
                "that results are a function of the archive bytes only, beyond the path-confinement necessary condition"]
 TRUSTED = ["tempfile.TemporaryDirectory as a context manager removes the tree on exit; a generator suspended inside a with-block runs the exit on close()/GC",
            "zipfile.ZipFile.read / tarfile.TarFile.extractfile never touch the file system", "os.path.abspath + startswith(base + os.sep) is a containment test"]
-FLOORS = {"C09-PATH": 5, "C09-MEM": 6, "C09-TMP": 3, "C09-SKIP": 12}
+FLOORS = {"C09-PATH": 5, "C09-MEM": 6, "C09-TMP": 3, "C09-SKIP": 12, "C09-LABEL": 3}
 
 FS_SINKS = {"open": 0, "os.makedirs": 0, "os.mkdir": 0, "os.path.exists": 0, "os.path.isfile": 0, "os.path.isdir": 0, "os.remove": 0, "os.unlink": 0, "os.rename": 0,
             "os.replace": 0, "os.symlink": 1, "os.link": 1, "os.listdir": 0, "os.stat": 0, "os.chmod": 0, "os.utime": 0, "shutil.rmtree": 0, "shutil.copy": 1,
@@ -432,4 +432,17 @@ def rule_skip(ctx: Ctx) -> RuleReport:
     return rep
 
 
-RULES = [rule_path, rule_mem, rule_tmp, rule_skip]
+def rule_label(ctx: Ctx) -> RuleReport:
+    """Results of archive members are labelled `<archive>!/<member>` with the member name exactly as stored.
+    The structural check is the one C10-LABEL performs; here it is an obligation of C09's 'member names are only ever labels'."""
+    from . import c10
+
+    src = c10.rule_label(ctx)
+    rep = RuleReport("C09-LABEL", "the member name reaches results only through the literal label f'{archive}!/{member}', never through a path function")
+    rep.obligations, rep.discharged, rep.residual, rep.info, rep.samples, rep.units = src.obligations, src.discharged, src.residual, src.info, src.samples, src.units
+    for f in src.findings:
+        rep.findings.append(Finding("C09-LABEL", f.file, f.function, f.construct, f.message, line=f.line))
+    return rep
+
+
+RULES = [rule_path, rule_mem, rule_tmp, rule_skip, rule_label]
